@@ -154,3 +154,46 @@ def manager_fields(prog, cls) -> set:
 def is_manager_expr(e, self_name, mgr_fields) -> bool:
     d = dotted(e)
     return bool(d) and len(d) == 2 and d[0] == self_name and d[1] in mgr_fields
+
+
+def before(root, a, b) -> bool:
+    """``a`` comes before ``b`` in the source order of the tree under ``root`` (pre-order position, not line numbers: the
+    statements of an inlined helper keep their own lines)"""
+    pos = getattr(root, "_order_index", None)
+    if pos is None:
+        pos = {}
+
+        def go(n):
+            pos[id(n)] = len(pos)
+            for ch in ast.iter_child_nodes(n):
+                go(ch)
+        go(root)
+        try:
+            root._order_index = pos
+        except Exception:
+            pass
+    return pos.get(id(a), -1) < pos.get(id(b), -1)
+
+
+def comprehension_of(fn_node, name: str):
+    """the list a local is built as, when it is built the long way:   L = []  ...  for t in it: L.append(E)   with nothing
+    else touching L before it is used (the loop may sit inside a `with`): returns the equivalent ListComp node, else None"""
+    inits, loops, other = [], [], []
+    for n in walk_own(fn_node):
+        if isinstance(n, ast.Assign) and any(isinstance(t, ast.Name) and t.id == name for t in n.targets):
+            (inits if isinstance(n.value, ast.List) and not n.value.elts else other).append(n)
+        elif isinstance(n, (ast.AugAssign, ast.Delete)) and any(isinstance(x, ast.Name) and x.id == name for x in ast.walk(n)):
+            other.append(n)
+        elif isinstance(n, ast.Call) and isinstance(n.func, ast.Attribute) and isinstance(n.func.value, ast.Name) and n.func.value.id == name:
+            if n.func.attr == "append" and len(n.args) == 1 and not n.keywords:
+                st = getattr(n, "_parent", None)
+                lp = getattr(st, "_parent", None)
+                if isinstance(st, ast.Expr) and isinstance(lp, ast.For) and lp.body == [st] and not lp.orelse:
+                    loops.append((lp, n.args[0]))
+                    continue
+            other.append(n)
+    if len(inits) != 1 or len(loops) != 1 or other:
+        return None
+    lp, elt = loops[0]
+    comp = ast.ListComp(elt=elt, generators=[ast.comprehension(target=lp.target, iter=lp.iter, ifs=[], is_async=0)])
+    return ast.copy_location(comp, lp)
